@@ -13,11 +13,13 @@ package main
 //@     assert (= path@arg realPath)                                                                         [C17]
 //
 //@ func required(obj) (res, err)
+//@   propagates all   [C08]
 //@   ensures (not (isErr err))
 //@   ensures (= res (reqF obj))                                 [C17]
 //@   decreases (rank obj) 1
 //
 //@ func requiredMap(obj) (res, err)
+//@   propagates all   [C08]
 //@   requires ((_ is VMap) obj)
 //@   ensures (not (isErr err))
 //@   ensures (= res (reqF obj))                                 [C17]
@@ -28,6 +30,7 @@ package main
 //@     invariant (forall ((j String)) (=> (not (select visited j)) (= (select (mc ret) j) VAbsent)))
 //
 //@ func requiredList(obj) (res, err)
+//@   propagates all   [C08]
 //@   uses appNil, snocApp
 //@   ensures (not (isErr err))
 //@   ensures (= res (reqF obj))                                 [C17]
